@@ -297,6 +297,11 @@ class SymWorld:
                 st.rollback()
         self.server = self._make_server()
 
+    def set_attr(self, c, attr, value):
+        """override a plain per-connection protocol flag (recorded for replay)"""
+        self.script.append(("setattr", c.label, attr, value))
+        setattr(c, attr, value)
+
     def msg(self, type_, **fields):
         """concrete-typed message; field value: term/proxy/str, or (presence, value)"""
         pres, val = {"type": True}, {"type": type_}
